@@ -620,7 +620,7 @@ keyword(struct token *tok)
 		mid = (low + high) / 2;
 		cmp = strcmp(tok->lit, keywords[mid].name);
 		if (cmp == 0) {
-			free(tok->lit);
+			/* the spelling may be shared with a macro's replacement list: not freed */
 			tok->kind = keywords[mid].value;
 			tok->lit = NULL;
 			break;
